@@ -45,11 +45,12 @@ type job struct {
 }
 
 type replayIn struct {
-	Seed uint64 `json:"seed"`
-	Tier string `json:"tier"`
-	Job  int    `json:"job"`
-	Sub  int    `json:"sub"` // position index for branch jobs
-	J    job    `json:"j"`
+	Seed  uint64 `json:"seed"`
+	Tier  string `json:"tier"`
+	Job   int    `json:"job"`
+	Sub   int    `json:"sub"` // position index for branch jobs
+	J     job    `json:"j"`
+	Serve int    `json:"serve"` // > 0: a case of the serve stream (serve.go), number of its plan
 }
 
 func seqInts(n int) []int {
@@ -443,7 +444,7 @@ type childChainOut struct {
 }
 
 type childAns struct {
-	Root     string          `json:"root,omitempty"`  // hex, "" = nil
+	Root     string          `json:"root,omitempty"` // hex, "" = nil
 	Nil      bool            `json:"nil,omitempty"`
 	Panic    string          `json:"panic,omitempty"`
 	Root2    string          `json:"root2,omitempty"` // CalcMerkleRoot
@@ -793,6 +794,13 @@ func main() {
 		}
 		opts.Seed, opts.Tier = in.Seed, in.Tier
 		only, onlySub = in.Job, in.Sub
+		if in.Serve > 0 {
+			o := hlib.NewOut(opts.OutDir)
+			defer o.Close()
+			n := runServe(o, opts, in.Serve)
+			fmt.Printf("hC18: replay of serve plan %d, %d cases\n", in.Serve, n)
+			return
+		}
 	}
 	avail := runtime.NumCPU()
 	cand := []int{1, 2, 3, 4, 8, 16}
@@ -854,5 +862,9 @@ func main() {
 			emitMulti(o, in, widths, answers)
 		}
 	}
-	fmt.Printf("hC18: %d jobs, %d cases, widths %v\n", len(js), o.Count(), widths)
+	nserve := 0
+	if only < 0 {
+		nserve = runServe(o, opts, 0)
+	}
+	fmt.Printf("hC18: %d jobs, %d cases (%d served blocks), widths %v\n", len(js), o.Count(), nserve, widths)
 }
